@@ -75,8 +75,15 @@ class OWorld:
         self.spec = spec
         self.twist = twist
         O = xd.optimize.optimize
-        self.names = ["k%d" % i for i in range(spec["nk"])]
-        self.knobs = KDict((n, float(v)) for n, v in zip(self.names, spec["start"]))
+        if spec.get("same_name"):
+            # every knob is called 'k' and lives in a container of its own
+            self.names = ["k"] * spec["nk"]
+            self.kcont = [KDict([("k", float(v))]) for v in spec["start"]]
+        else:
+            self.names = ["k%d" % i for i in range(spec["nk"])]
+            shared = KDict((n, float(v)) for n, v in zip(self.names, spec["start"]))
+            self.kcont = [shared] * spec["nk"]
+        self.knobs = self.kcont[0]
         self.n_eval = 0              # evaluations of the user's action so far
         self.fault_raise = set()     # evaluation indices (absolute) at which run() raises
         self.fault_fail = set()      # ... returns "failed"
@@ -96,7 +103,7 @@ class OWorld:
                 if i in world.fault_fail:
                     world.fired.append((i, "failed"))
                     return "failed"
-                k = [dict.__getitem__(world.knobs, n) for n in world.names]
+                k = world.knob_values()
                 y = plant_eval(world.spec["plant"], k, world.twist)
                 return {j: y[j] for j in range(len(y))}
 
@@ -104,7 +111,7 @@ class OWorld:
         vary = []
         for i, n in enumerate(self.names):
             lim = spec["limits"][i]
-            vary.append(O.Vary(n, self.knobs, limits=(None if lim is None else list(lim)), step=spec["steps"][i],
+            vary.append(O.Vary(n, self.kcont[i], limits=(None if lim is None else list(lim)), step=spec["steps"][i],
                                weight=spec["weights"][i], max_step=spec["max_step"][i], tag=spec["tags"][i],
                                active=bool(spec.get("vary_active", [True] * spec["nk"])[i])))
         targets = []
@@ -123,7 +130,7 @@ class OWorld:
 
     # ---- observation -------------------------------------------------------------------
     def knob_values(self):
-        return [dict.__getitem__(self.knobs, n) for n in self.names]
+        return [dict.__getitem__(c, n) for c, n in zip(self.kcont, self.names)]
 
     def vary_flags(self):
         return [bool(v.active) for v in self.opt._err.vary]
